@@ -199,6 +199,36 @@ def build_ops(ck, tmp, n):
         with open(pr, "wb") as fh:
             fh.write(rr[1])
         ops.append({"kind": "boot", "inputs": [pr], "envelope_address": 0x0E1E9340, "uci": 0x0E1E9340})
+    # REJECTED inputs are part of a history too: envelopes damaged deep inside nested try-each / run-sequence arguments are parsed
+    # (and rejected) before the intact one is parsed — state left behind on an error path shows in the later parse
+    def nest(depth, leaf):
+        seq = leaf
+        for i in range(depth):
+            seq = [{"suit-directive-try-each": [seq, [{"suit-condition-image-match": []}]]}] if i % 2 == 0 else [{"suit-directive-run-sequence": seq}]
+        return seq
+    deep = {"SUIT_Envelope_Tagged": {
+        "suit-authentication-wrapper": {"SuitDigest": {"suit-digest-algorithm-id": "cose-alg-sha-256"}},
+        "suit-manifest": {"suit-manifest-version": 1, "suit-manifest-sequence-number": 3, "suit-common": {"suit-components": [["M", 2]]},
+                          "suit-validate": nest(5, [{"suit-condition-image-match": []}]),
+                          "suit-install": nest(4, [{"suit-directive-fetch": []}])}}}
+    rdp = interp.run_impl(interp.impl_create, deep)
+    if rdp[0] == "ok":
+        good = os.path.join(tmp, "nested_good.suit")
+        with open(good, "wb") as fh:
+            fh.write(rdp[1])
+        damaged = []
+        data = rdp[1]
+        for pos in [i for i in range(len(data) - 1) if data[i] == 0x03 and data[i + 1] == 0x80][:3] + [len(data) - 3, len(data) - 8, len(data) // 2]:
+            b = bytearray(data)
+            b[pos] = 0x18 if b[pos] != 0x18 else 0x19          # a command code / head that no longer fits
+            pd = os.path.join(tmp, f"nested_damaged_{pos}.suit")
+            with open(pd, "wb") as fh:
+                fh.write(bytes(b))
+            damaged.append(pd)
+        for pd in damaged:
+            ops.append({"kind": "parse", "input": pd, "fmt": "json", "hier": False, "damaged": True})
+        ops.append({"kind": "parse", "input": good, "fmt": "json", "hier": False, "after_damaged": True})
+        ops.append({"kind": "parse", "input": good, "fmt": "yaml", "hier": True, "after_damaged": True})
     # storage images under DIFFERENT build configurations in one interpreter: the first configuration gives a role to a class the
     # second one does not know — anything remembered from the first configuration file shows in the second run
     leak = {"SUIT_Envelope_Tagged": {
@@ -310,6 +340,9 @@ def run(tier, seed):
             socops = [i for i, op in enumerate(ops) if op.get("designed") == "soc"]
             if h == 4 and socops:
                 order = socops[::-1] + socops            # the other SoC first, then the sized envelope; then again in the given order
+            dam = [i for i, op in enumerate(ops) if op.get("damaged")]
+            if h == 7 and dam:
+                order = dam * 3 + [i for i, op in enumerate(ops) if op.get("after_damaged")]     # rejected parses first, three rounds
             if h == 5 and socops:
                 order = [i for i, op in enumerate(ops) if op["kind"] == "boot" and "soc" not in op] + socops[::-1] + socops[:1]
             if h % 3 == 0:
